@@ -132,14 +132,6 @@ impl Dec {
         let t = std::mem::take(&mut self.text);
         for g in t.graphemes(true) {
             let w = UnicodeWidthStr::width(g);
-            if w == 0 && !g.chars().any(|c| c == '\t') {
-                // zero-width cluster (combining mark split from its base by an escape
-                // sequence, ZWJ, control char): attach to the previous cell if there is one
-                if let Some(last) = self.cur.cells.last_mut() {
-                    last.text.push_str(g);
-                    continue;
-                }
-            }
             self.cur.cells.push(Cell {
                 text: g.to_string(),
                 width: w,
